@@ -66,6 +66,44 @@ def override_table():
     return sorted(table)
 
 
+CACHE_NAMES = ["cholesky", "root_decomposition", "root_inv_decomposition", "diagonalization", "svd", "symeig", "lanczos"]
+
+
+def cache_tables():
+    """(cached entries, cache writers) of the factorization caches in operators/*.py.
+    entry  = (class, function, cache name, ignore_args, function has a `method` parameter)
+    writer = ("Class.function", cache name) for every add_to_cache(<obj>, "<name>", …) call"""
+    d = os.path.join(REPO, "linear_operator", "operators")
+    entries, writers = [], []
+    for f in sorted(os.listdir(d)):
+        if not f.endswith(".py"):
+            continue
+        classes, _ = _classes(os.path.join(d, f))
+        for c in classes:
+            for fn in c.body:
+                if not isinstance(fn, ast.FunctionDef):
+                    continue
+                for dec in fn.decorator_list:
+                    nm, ign = None, False
+                    if isinstance(dec, ast.Name) and dec.id == "cached":
+                        nm = fn.name
+                    elif isinstance(dec, ast.Call) and getattr(dec.func, "id", "") == "cached":
+                        nm = fn.name
+                        for kw in dec.keywords:
+                            if kw.arg == "name" and isinstance(kw.value, ast.Constant):
+                                nm = kw.value.value
+                            if kw.arg == "ignore_args":
+                                ign = bool(getattr(kw.value, "value", True))
+                    if nm is not None and (nm in CACHE_NAMES or fn.name in HOOKS):
+                        has_m = any(a.arg == "method" for a in fn.args.args + fn.args.kwonlyargs)
+                        entries.append((c.name, fn.name, nm, ign, has_m))
+                for n in ast.walk(fn):
+                    if isinstance(n, ast.Call) and getattr(n.func, "id", "") == "add_to_cache" and len(n.args) >= 2 \
+                            and isinstance(n.args[1], ast.Constant) and n.args[1].value in CACHE_NAMES:
+                        writers.append((f"{c.name}.{fn.name}", n.args[1].value))
+    return sorted(entries), sorted(writers)
+
+
 def _method_strings(fn):
     """String literals compared with `method ==` in source order."""
     out = []
@@ -85,10 +123,11 @@ def _clamps(fn):
 
 
 def extract():
-    facts = {"overrides": override_table(), "probes": [], "sizeCmp": "?", "flag": "?", "small": "?", "large": "?",
+    ce, cw = cache_tables()
+    facts = {"overrides": override_table(), "cachedEntries": ce, "cacheWriters": cw, "probes": [], "sizeCmp": "?", "flag": "?", "small": "?", "large": "?",
              "rootMethods": [], "rootInvMethods": [], "diagMethods": [], "rootClamps": [], "rootInvClamps": [],
              "symeigClamps": [], "lanczosTol": None, "lanczosBreak": None, "lanczosRounds": -1, "lanczosSmallEig": -1,
-             "settings": {}, "cholUpperViaTranspose": False, "kronRootInvDropsMethod": False}
+             "settings": {}, "cholUpperViaTranspose": False, "kronRootInvForwardsMethod": False}
     classes, _ = _classes(os.path.join(REPO, "linear_operator", "operators", "_linear_operator.py"))
     lo = next((c for c in classes if c.name == "LinearOperator"), None)
     if lo is not None:
@@ -126,7 +165,9 @@ def extract():
     kp = next((c for c in kclasses if c.name == "KroneckerProductLinearOperator"), None)
     if kp is not None and _method(kp, "root_inv_decomposition") is not None:
         src = ast.unparse(_method(kp, "root_inv_decomposition"))
-        facts["kronRootInvDropsMethod"] = "super().root_inv_decomposition()" in src and "lt.root_inv_decomposition()" in src
+        src1 = src.replace(" ", "").replace("\n", "")
+        facts["kronRootInvForwardsMethod"] = "method=method)" in src1.split("root_list")[0].split("super().root_inv_decomposition(")[-1] \
+            and "lt.root_inv_decomposition(method=method)" in src1
     # lanczos
     ltree = ast.parse(open(os.path.join(REPO, "linear_operator", "utils", "lanczos.py")).read())
     lt = next((n for n in ltree.body if isinstance(n, ast.FunctionDef) and n.name == "lanczos_tridiag"), None)
@@ -173,6 +214,12 @@ def render(f):
     L.append("def overrides : List (String × List String) := [")
     L.append(",\n".join("  (" + lean_str(c) + ", [" + ", ".join(lean_str(h) for h in hs) + "])" for c, hs in f["overrides"]))
     L.append("]")
+    L.append("/-- `@cached` entries of the factorization caches: (class, function, cache name, ignore_args, has a `method` parameter) -/")
+    L.append("def cachedEntries : List (String × String × String × Bool × Bool) := [")
+    L.append(",\n".join(f"  ({lean_str(a)}, {lean_str(b)}, {lean_str(c)}, {'true' if d else 'false'}, {'true' if e else 'false'})" for a, b, c, d, e in f["cachedEntries"]))
+    L.append("]")
+    L.append("/-- `add_to_cache(obj, name, …)` call sites writing a factorization cache: (Class.function, cache name) -/")
+    L.append("def cacheWriters : List (String × String) := [" + ", ".join(f"({lean_str(a)}, {lean_str(b)})" for a, b in f["cacheWriters"]) + "]")
     L.append("/-- `_choose_root_method`: (cache name probed, method returned), in source order -/")
     L.append("def probes : List (String × String) := [" + ", ".join(f"({lean_str(a)}, {lean_str(b)})" for a, b in f["probes"]) + "]")
     L.append(f"def sizeCmp : String := {lean_str(f['sizeCmp'])}")
@@ -197,7 +244,7 @@ def render(f):
     L.append(f"def choleskyJitterDouble : Rat := {lean_rat(s.get('cholesky_jitter_global_double_value'))}")
     L.append(f"def symeigDtype : String := {lean_str(s.get('symeig_dtype', '?'))}")
     L.append(f"def cholUpperViaTranspose : Bool := {'true' if f['cholUpperViaTranspose'] else 'false'}")
-    L.append(f"def kronRootInvDropsMethod : Bool := {'true' if f['kronRootInvDropsMethod'] else 'false'}")
+    L.append(f"def kronRootInvForwardsMethod : Bool := {'true' if f['kronRootInvForwardsMethod'] else 'false'}")
     L += ["", "end LinOp.Generated.C06", ""]
     return "\n".join(L)
 
